@@ -85,7 +85,8 @@ ListStep(s, o, a, b, c) ==
     [] o = "eq_self" -> Out(RBool(TRUE), s)
     [] o = "eq_tuple" -> Out(RBool(FALSE), s)
     [] o = "ne_tuple" -> Out(RBool(TRUE), s)
-    [] o \in {"lt_int", "add_tuple", "call", "with", "next", "int"} -> Out(RExc("TypeError"), s)
+    [] o \in {"lt_int", "add_tuple", "call", "with", "next", "int", "or_int", "ror_int"} -> Out(RExc("TypeError"), s)
+    [] o = "callable" -> Out(RBool(FALSE), s)
     [] o \in {"getattr_missing", "setattr_x", "delattr_x"} -> Out(RExc("AttributeError"), s)
     [] o = "dir_has" -> Out(RBool(TRUE), s)
     [] o = "isinstance" -> Out(RBool(TRUE), s)
@@ -123,6 +124,7 @@ DictStep(s, o, a, b, c) ==
     [] o = "eq_self" -> Out(RBool(TRUE), s)
     [] o = "eq_int" -> Out(RBool(FALSE), s)
     [] o \in {"lt_int", "call", "with", "next"} -> Out(RExc("TypeError"), s)
+    [] o = "callable" -> Out(RBool(FALSE), s)
     [] o \in {"getattr_missing", "setattr_x"} -> Out(RExc("AttributeError"), s)
     [] o = "isinstance" -> Out(RBool(TRUE), s)
 
@@ -155,6 +157,7 @@ SetStep(s, o, a, b, c) ==
     [] o = "isdisjoint" -> Out(RBool(s \cap FS(a) = {}), s)
     [] o = "issubset" -> Out(RBool(s \subseteq FS(a)), s)
     [] o \in {"getitem", "lt_int", "call", "with", "next"} -> Out(RExc("TypeError"), s)
+    [] o = "callable" -> Out(RBool(FALSE), s)
     [] o = "getattr_missing" -> Out(RExc("AttributeError"), s)
     [] o = "isinstance" -> Out(RBool(TRUE), s)
 
@@ -195,7 +198,8 @@ DequeStep(s, o, a, b, c) ==
     [] o = "maxlen" -> Out(RInt(MaxLen), s)
     [] o = "eq_self" -> Out(RBool(TRUE), s)
     [] o = "eq_tuple" -> Out(RBool(FALSE), s)
-    [] o \in {"getslice", "lt_int", "call", "with", "next"} -> Out(RExc("TypeError"), s)
+    [] o \in {"getslice", "lt_int", "call", "with", "next", "or_int", "ror_int"} -> Out(RExc("TypeError"), s)
+    [] o = "callable" -> Out(RBool(FALSE), s)
     [] o \in {"getattr_missing", "set_maxlen"} -> Out(RExc("AttributeError"), s)
     [] o = "isinstance" -> Out(RBool(TRUE), s)
 
@@ -216,7 +220,8 @@ GenStep(p, o, a, b, c) ==
     [] o = "iter_is_self" -> Out(RBool(TRUE), p)
     [] o = "bool" -> Out(RBool(TRUE), p)
     [] o \in {"repr", "str"} -> Out(RText, p)
-    [] o \in {"len", "getitem", "call", "with", "lt_int"} -> Out(RExc("TypeError"), p)
+    [] o \in {"len", "getitem", "call", "with", "lt_int", "or_int", "ror_int"} -> Out(RExc("TypeError"), p)
+    [] o = "callable" -> Out(RBool(FALSE), p)
     [] o = "getattr_missing" -> Out(RExc("AttributeError"), p)
     [] o = "buffiter" -> Out(RSeq(Rest(p)), NI)                    \* list(buffiter(proxy, chunk=a, max_chunk=b, factor=c))
 
@@ -253,7 +258,8 @@ FileStep(f, o, a, b, c) ==
     [] o = "with" -> Out(RBool(TRUE), [f EXCEPT !.c = TRUE])       \* `with proxy as g: ok = g is proxy`
     [] o = "iter_is_self" -> Out(RBool(TRUE), f)
     [] o = "bool" -> Out(RBool(TRUE), f)
-    [] o \in {"len", "getitem", "call", "lt_int"} -> Out(RExc("TypeError"), f)
+    [] o \in {"len", "getitem", "call", "lt_int", "or_int", "ror_int"} -> Out(RExc("TypeError"), f)
+    [] o = "callable" -> Out(RBool(FALSE), f)
     [] o \in {"getattr_missing"} -> Out(RExc("AttributeError"), f)
 
 \* ------------------------------------------------------------------ bytearray
@@ -286,6 +292,7 @@ BAStep(s, o, a, b, c) ==
     [] o = "count" -> Out(RInt(CountOf(s, a)), s)
     [] o = "index" -> IF Has(s, a) THEN Out(RInt(FirstIdx(s, a) - 1), s) ELSE Out(RExc("ValueError"), s)
     [] o \in {"lt_int", "call", "with", "next", "add_int"} -> Out(RExc("TypeError"), s)
+    [] o = "callable" -> Out(RBool(FALSE), s)
     [] o \in {"getattr_missing", "setattr_x"} -> Out(RExc("AttributeError"), s)
     [] o = "isinstance" -> Out(RBool(TRUE), s)
 
@@ -308,11 +315,12 @@ UserStep(u, o, a, b, c) ==
     [] o = "call_kw" -> Out(RInt(u.total * a + b), u)
     [] o = "call_bad" -> Out(RExc("TypeError"), u)
     [] o = "eq_int" -> Out(RBool(u.total = a), u)
-    [] o = "ne_int" -> Out(RBool(u.total # a), u)
+    [] o = "ne_int" -> Out(RBool(u.total # a \/ u.total = 3), u)        \* the class's own __ne__: not the negation of __eq__
     [] o = "eq_self" -> Out(RBool(TRUE), u)
     [] o = "eq_text" -> Out(RBool(FALSE), u)
     [] o = "lt_int" -> Out(RBool(u.total < a), u)
-    [] o = "gt_int" -> Out(RExc("TypeError"), u)
+    [] o \in {"gt_int", "or_int", "ror_int"} -> Out(RExc("TypeError"), u)
+    [] o = "callable" -> Out(RBool(TRUE), u)
     [] o = "hash" -> Out(RInt(u.total + 7), u)
     [] o \in {"repr", "str"} -> Out(RText, u)
     [] o = "with" -> Out(RBool(TRUE), u)                                   \* enter: depth+1, exit: depth-1
@@ -347,41 +355,42 @@ A3(S, X, Y, W) == {<<o, x, y, w>> : o \in S, x \in X, y \in Y, w \in W}
 OpsOf(k, s) ==
   CASE k = "list" -> Z({"len", "bool", "repr", "str", "hash", "pop", "reverse", "clear", "sort", "copy", "iter", "reversed", "eq_self",
                          "eq_tuple", "ne_tuple", "lt_int", "add_tuple", "call", "with", "next", "int", "getattr_missing", "setattr_x",
-                         "delattr_x", "dir_has", "isinstance"})
+                         "delattr_x", "dir_has", "isinstance", "or_int", "ror_int", "callable"})
                     \cup A1({"getitem", "delitem", "popi"}, Idx) \cup A2({"setitem"}, Idx, V) \cup A1({"append"}, V)
                     \cup A2({"insert"}, {-5, -1, 0, 1, 5}, V) \cup A1({"remove", "index", "count", "contains"}, 0..2)
                     \cup A2({"getslice", "delslice"}, {-2, 0, 1, 3}, {-1, 0, 2, 3}) \cup A3({"setslice"}, {0, 1, -1}, {0, 2}, 1..3)
                     \cup A1({"extend", "iadd"}, 1..3) \cup A1({"mul"}, {0, 1, 2})
     [] k = "dict" -> Z({"len", "bool", "repr", "str", "hash", "popitem", "keys", "iter", "values", "items", "clear", "eq_self", "eq_int",
-                         "lt_int", "call", "with", "next", "getattr_missing", "setattr_x", "isinstance"})
+                         "lt_int", "call", "with", "next", "getattr_missing", "setattr_x", "isinstance", "callable"})
                     \cup A1({"getitem", "delitem", "contains", "get", "pop"}, 0..2)
                     \cup A2({"setitem", "getd", "popd", "setdefault", "update_pairs"}, 0..2, V)
     [] k = "set" -> Z({"len", "bool", "repr", "str", "hash", "clear", "iter", "getitem", "lt_int", "call", "with", "next",
-                        "getattr_missing", "isinstance"})
+                        "getattr_missing", "isinstance", "callable"})
                     \cup A1({"add", "remove", "discard", "contains"}, 0..2) \cup A1({"pop"}, IF s = {} THEN {0} ELSE s)
                     \cup A1({"or", "and", "sub", "xor", "ior", "isub", "update", "le", "lt", "ge", "eq", "ne", "isdisjoint", "issubset"}, {0, 1, 3, 5, 6, 7})
     [] k = "deque" -> Z({"len", "bool", "repr", "str", "hash", "pop", "popleft", "reverse", "clear", "iter", "reversed", "copy", "maxlen",
-                          "eq_self", "eq_tuple", "getslice", "lt_int", "call", "with", "next", "getattr_missing", "set_maxlen"})
+                          "eq_self", "eq_tuple", "getslice", "lt_int", "call", "with", "next", "getattr_missing", "set_maxlen", "or_int", "ror_int",
+                          "callable"})
                     \cup A1({"append", "appendleft"}, V) \cup A1({"rotate"}, {-1, 0, 1, 2}) \cup A1({"getitem", "delitem"}, Idx)
                     \cup A2({"setitem"}, Idx, V) \cup A2({"insert"}, {-1, 0, 1, 5}, V) \cup A1({"remove", "index", "count", "contains"}, 0..2)
                     \cup A1({"extend", "iadd"}, 1..3)
     [] k = "gen" -> Z({"next", "send_none", "send_one", "list_rest", "tuple_rest", "for_break", "close", "iter_is_self", "bool", "repr",
-                        "str", "len", "getitem", "call", "with", "lt_int", "getattr_missing"})
+                        "str", "len", "getitem", "call", "with", "lt_int", "getattr_missing", "or_int", "ror_int", "callable"})
                     \cup A1({"contains"}, 0..3) \cup A3({"buffiter"}, 1..3, 1..3, 1..2)
     [] k = "file" -> Z({"readline", "next", "seek_end", "tell", "truncate", "getvalue", "readable", "close", "closed", "with", "iter_is_self",
-                         "bool", "len", "getitem", "call", "lt_int", "getattr_missing"})
+                         "bool", "len", "getitem", "call", "lt_int", "getattr_missing", "or_int", "ror_int", "callable"})
                     \cup A1({"read"}, {-1, 0, 1, 2}) \cup A1({"seek"}, 0..3) \cup A1({"write"}, 2..3)
     [] k = "bytearray" -> Z({"len", "bool", "repr", "str", "hash", "pop", "tobytes", "iter", "reverse", "clear", "eq_self", "lt_int", "call",
-                              "with", "next", "add_int", "getattr_missing", "setattr_x", "isinstance"})
+                              "with", "next", "add_int", "getattr_missing", "setattr_x", "isinstance", "callable"})
                     \cup A1({"append"}, {0, 1, 256}) \cup A1({"getitem", "delitem"}, Idx) \cup A2({"setitem"}, Idx, {0, 1, 256})
                     \cup A1({"extend", "iadd", "add_bytes", "eq_bytes", "ne_bytes"}, 1..3) \cup A1({"mul"}, {0, 2})
                     \cup A2({"getslice"}, {-2, 0, 1}, {-1, 2, 3}) \cup A3({"setslice"}, {0, 1}, {0, 2}, 1..3)
                     \cup A1({"contains", "count", "index"}, 0..2)
     [] k = "user" -> Z({"neg", "len", "bool", "int", "iter", "call_bad", "eq_self", "eq_text", "gt_int", "hash", "repr", "str", "with",
                          "get_total", "get_level", "get_extra", "del_extra", "del_level", "get_hidden", "boom", "peek", "get_kind",
-                         "classmeth", "getattr_missing", "next", "isinstance", "dir_has"})
+                         "classmeth", "getattr_missing", "next", "isinstance", "dir_has", "or_int", "ror_int", "callable"})
                     \cup A1({"add", "radd", "iadd", "call", "eq_int", "ne_int", "lt_int", "bump", "staticmeth"}, 0..2)
-                    \cup A1({"getitem", "contains"}, 0..3) \cup A2({"setitem"}, {0, 1}, 0..3) \cup A1({"delitem"}, {0, 1})
+                    \cup A1({"getitem", "contains", "eq_int", "ne_int"}, 0..3) \cup A2({"setitem"}, {0, 1}, 0..3) \cup A1({"delitem"}, {0, 1})
                     \cup A2({"call_kw"}, 1..2, 0..1) \cup A1({"set_level"}, 0..3) \cup A1({"set_total"}, 0..3) \cup A1({"set_extra"}, V)
                     \cup (IF s.depth = 0 THEN Z({"enter"}) ELSE Z({"exit"}))
 
@@ -408,7 +417,7 @@ Within(k, s) ==
 \*   "safe"    a special name listed in safe_attrs          "special" a special name not listed (e.g. __reversed__)
 \*   "public"  a name without leading underscore           "private" a single-underscore name
 \*   "exposed" a name carrying the exposed_ prefix         access: "get" | "set" | "del"
-NoPolicy == {"repr", "str", "hash", "call", "call_kw", "call_bad", "dir_has", "isinstance"}
+NoPolicy == {"repr", "str", "hash", "call", "call_kw", "call_bad", "dir_has", "isinstance", "callable"}
 PublicNames == {"append", "insert", "pop", "popi", "remove", "index", "count", "reverse", "clear", "sort", "copy", "extend", "get", "getd",
                 "popd", "popitem", "setdefault", "keys", "values", "items", "update_pairs", "discard", "update", "isdisjoint",
                 "issubset", "appendleft", "popleft", "rotate", "maxlen", "send_none", "send_one", "close", "read", "readline", "seek",
@@ -456,7 +465,8 @@ Queries == {"len", "bool", "repr", "str", "hash", "getitem", "index", "count", "
             "eq_self", "eq_tuple", "ne_tuple", "eq_int", "ne_int", "eq_text", "lt_int", "gt_int", "get", "getd", "keys", "values", "items",
             "or", "and", "sub", "xor", "le", "lt", "ge", "eq", "ne", "isdisjoint", "issubset", "maxlen", "tell", "getvalue", "closed",
             "tobytes", "add_bytes", "eq_bytes", "ne_bytes", "radd", "neg", "int", "call", "call_kw", "get_total", "get_level",
-            "get_extra", "get_hidden", "peek", "get_kind", "classmeth", "staticmeth", "isinstance", "dir_has", "iter_is_self"}
+            "get_extra", "get_hidden", "peek", "get_kind", "classmeth", "staticmeth", "isinstance", "dir_has", "iter_is_self", "or_int", "ror_int",
+            "callable"}
 \* an operation that ends in an exception leaves the target as it was; queries leave it as it was; the step stays in the state space
 StepLaws == \A k \in Kinds : \A s \in States(k) : \A op \in OpsOf(k, s) :
               LET out == Step(k, s, op[1], op[2], op[3], op[4]) IN
